@@ -63,6 +63,10 @@ func runC06(p *core.Prog, r *core.Report, tier string) {
 			if !strings.HasSuffix(fld, "DomainType") {
 				continue
 			}
+			// a domain type (or a pointer to one), not a flag that says whether one is known
+			if t := v.Type(); !strings.HasSuffix(strings.TrimPrefix(t.String(), "*"), "phase0.DomainType") {
+				continue
+			}
 			keys := map[string]bool{}
 			okAll := true
 			for _, lf := range core.PhiLeaves(v, sl.Stores[fld]) {
